@@ -48,35 +48,51 @@ macro "shape_tac" h:ident : tactic => `(tactic| (
     | (have hh := fail_shape $h; subst hh; simp only [shapeOf, V.className, List.map_cons, List.map_nil]; decide)
     | split at $h:ident)))
 
-theorem urlPartsLoop_shape (allowed names vals) (b n)
-    (h : urlPartsLoop allowed names vals = .ok (b, some n)) : n = ⟨"blocked_part", []⟩ := by
-  induction names generalizing vals with
+theorem urlPartsLoop_shape (allowed u parts) (b n)
+    (h : urlPartsLoop allowed u parts = .ok (b, some n)) : n = ⟨"blocked_part", []⟩ := by
+  induction parts with
   | nil => simp [urlPartsLoop, pass] at h
-  | cons nm rest ih =>
-    cases vals with
-    | nil => simp [urlPartsLoop] at h
-    | cons v vs =>
-      simp only [urlPartsLoop] at h
-      split at h
-      · exact fail_shape h
-      · exact ih vs h
+  | cons part rest ih =>
+    simp only [urlPartsLoop] at h
+    split at h
+    · exact fail_shape h
+    · exact ih h
 
-theorem httpPartsLoop_shape (req forb names vals) (b n)
-    (h : httpPartsLoop req forb names vals = .ok (b, some n)) :
+theorem urlValidate_shape (s a lib value) (b n)
+    (h : urlValidate s a lib value = .ok (b, some n)) :
+    n = ⟨"bad_format", []⟩ ∨ n = ⟨"blocked_scheme", []⟩ ∨ n = ⟨"blocked_part", []⟩ := by
+  unfold urlValidate at h
+  repeat' (first
+    | (cases h; done)
+    | (exact Or.inl (fail_shape h))
+    | (exact Or.inr (Or.inl (fail_shape h)))
+    | (exact Or.inr (Or.inr (urlPartsLoop_shape _ _ _ _ _ h)))
+    | split at h)
+
+theorem httpPartsLoop_shape (req forb p parts) (b n)
+    (h : httpPartsLoop req forb p parts = .ok (b, some n)) :
     n = ⟨"bad_format", []⟩ ∨ n = ⟨"required_part", []⟩ ∨ n = ⟨"forbidden_part", []⟩ := by
-  induction names generalizing vals with
+  induction parts with
   | nil => simp [httpPartsLoop, pass] at h
-  | cons nm rest ih =>
-    cases vals with
-    | nil => simp [httpPartsLoop] at h
-    | cons v vs =>
-      simp only [httpPartsLoop] at h
-      repeat' (first
-        | (exact Or.inl (fail_shape h))
-        | (exact Or.inr (Or.inl (fail_shape h)))
-        | (exact Or.inr (Or.inr (fail_shape h)))
-        | (exact ih vs h)
-        | split at h)
+  | cons part rest ih =>
+    simp only [httpPartsLoop] at h
+    repeat' (first
+      | (cases h; done)
+      | (exact Or.inl (fail_shape h))
+      | (exact Or.inr (Or.inl (fail_shape h)))
+      | (exact Or.inr (Or.inr (fail_shape h)))
+      | (exact ih h)
+      | split at h)
+
+theorem httpValidate_shape (ap req forb lib url) (b n)
+    (h : httpValidate ap req forb lib url = .ok (b, some n)) :
+    n = ⟨"bad_format", []⟩ ∨ n = ⟨"required_part", []⟩ ∨ n = ⟨"forbidden_part", []⟩ := by
+  unfold httpValidate at h
+  repeat' (first
+    | (cases h; done)
+    | (exact Or.inl (fail_shape h))
+    | (exact httpPartsLoop_shape _ _ _ _ _ _ h)
+    | split at h)
 
 theorem verdict_shape (v : V) (e : View) (b : Bool) (n : Note)
     (h : verdict v e = .ok (b, some n)) : shapeOf v n ∈ shapes := by
@@ -111,15 +127,15 @@ theorem verdict_shape (v : V) (e : View) (b : Bool) (n : Note)
       | (exact (pass_shape h).elim)
       | (cases h; done)
       | (have hh := fail_shape h; subst hh; simp only [shapeOf, V.className, List.map_cons, List.map_nil]; decide)
-      | (have hh := urlPartsLoop_shape _ _ _ _ _ h; subst hh; simp only [shapeOf, V.className, List.map_cons, List.map_nil]; decide)
+      | (rcases urlValidate_shape _ _ _ _ _ _ h with hh | hh | hh <;> subst hh <;> simp only [shapeOf, V.className, List.map_cons, List.map_nil] <;> decide)
       | split at h)
-  | httpURL r f =>
+  | httpURL ap r f =>
     simp only [verdict] at h
     repeat' (first
       | (exact (pass_shape h).elim)
       | (cases h; done)
       | (have hh := fail_shape h; subst hh; simp only [shapeOf, V.className, List.map_cons, List.map_nil]; decide)
-      | (rcases httpPartsLoop_shape _ _ _ _ _ _ h with hh | hh | hh <;> subst hh <;> simp only [shapeOf, V.className, List.map_cons, List.map_nil] <;> decide)
+      | (rcases httpValidate_shape _ _ _ _ _ _ _ h with hh | hh | hh <;> subst hh <;> simp only [shapeOf, V.className, List.map_cons, List.map_nil] <;> decide)
       | split at h)
   | urlCanonicalizer d => simp only [verdict] at h; shape_tac h
 
